@@ -224,3 +224,55 @@ Proof.
   destruct (hosp_loop (length H) (j_prefH H) (j_rkR R) cap fuel hosp_init); [discriminate|].
   exfalso. apply Ht; [intros p; simpl; lia|lia|reflexivity].
 Qed.
+
+(* ---------- C02: the resident-optimal stable matching is unique, hence the result does not depend on anything but the
+   instance (processing order, numbering of the free residents, ...) ---------- *)
+Lemma before_asym (l : list nat) a b : NoDup l -> before l a b -> before l b a -> False.
+Proof.
+  intros Hnd [i [j [Hij [Hi Hj]]]] [i' [j' [Hij' [Hi' Hj']]]]. rewrite NoDup_nth_error in Hnd.
+  assert (i = j') by (apply Hnd; [apply nth_error_Some; congruence|congruence]).
+  assert (j = i') by (apply Hnd; [apply nth_error_Some; congruence|congruence]). lia.
+Qed.
+Lemma nodup_le1 (l : list nat) a b : NoDup l -> length l <= 1 -> In a l -> In b l -> a = b.
+Proof.
+  intros Hnd Hl Ha Hb. destruct l as [|x [|y t]].
+  - destruct Ha.
+  - destruct Ha as [<-|[]]. destruct Hb as [<-|[]]. reflexivity.
+  - simpl in Hl. lia.
+Qed.
+Lemma stable_one_hospital R H cap mu p h1 h2 : (forall p, p < length R -> length (rowR R p) = length H) ->
+  stableM (i_pl R) (i_rkH H) (fun _ => 1) cap (seq 0 (length H)) mu -> In p (mu h1) -> In p (mu h2) -> h1 = h2.
+Proof.
+  intros HRl [[Hf1 Hf2] _] H1 H2.
+  assert (L1 : h1 < length H). { destruct (Hf1 h1) as [_ [_ H3]]. destruct (H3 p H1) as [_ Hp]. exact (inst_pl_lt R H HRl p h1 Hp). }
+  assert (L2 : h2 < length H). { destruct (Hf1 h2) as [_ [_ H3]]. destruct (H3 p H2) as [_ Hp]. exact (inst_pl_lt R H HRl p h2 Hp). }
+  apply (nodup_le1 (engsM (seq 0 (length H)) mu p)).
+  - unfold engsM. apply NoDup_filter, seq_NoDup.
+  - apply Hf2.
+  - apply engsM_In. split; [apply in_seq; lia|exact H1].
+  - apply engsM_In. split; [apply in_seq; lia|exact H2].
+Qed.
+
+Theorem C02_res_unique R H cap fuel out :
+  strictb R (length H) = true -> strictb H (length R) = true ->
+  gs_res_run R H cap fuel = Some out ->
+  forall mu, stableM (i_pl R) (i_rkH H) (fun _ => 1) cap (seq 0 (length H)) mu ->
+  (forall nu, stableM (i_pl R) (i_rkH H) (fun _ => 1) cap (seq 0 (length H)) nu ->
+     forall p h, In p (nu h) -> exists h', In p (mu h') /\ (h' = h \/ before (i_pl R p) h' h)) ->
+  forall p h, In p (mu h) <-> In p (mu_of_hospital out h).
+Proof.
+  intros HR HH Hrun mu Hmu Hopt p h.
+  pose proof (C01_res_output R H cap fuel out HR HH Hrun) as HM.
+  destruct (strictb_sound R _ HR) as [_ HRl].
+  split; intros Hin.
+  - destruct (C02_res_optimal R H cap fuel out HR HH Hrun mu Hmu p h Hin) as [h' [Hh' Hb]].
+    destruct (Hopt _ HM p h' Hh') as [h'' [Hh'' Hb']].
+    assert (h'' = h) by (apply (stable_one_hospital R H cap mu p h'' h HRl Hmu Hh'' Hin)). subst h''.
+    destruct Hb as [->|Hb]; [exact Hh'|]. destruct Hb' as [->|Hb']; [exact Hh'|].
+    exfalso. exact (before_asym _ _ _ (inst_pl_nodup R p) Hb Hb').
+  - destruct (Hopt _ HM p h Hin) as [h' [Hh' Hb]].
+    destruct (C02_res_optimal R H cap fuel out HR HH Hrun mu Hmu p h' Hh') as [h'' [Hh'' Hb']].
+    assert (h'' = h) by (apply (stable_one_hospital R H cap (mu_of_hospital out) p h'' h HRl HM Hh'' Hin)). subst h''.
+    destruct Hb as [->|Hb]; [exact Hh'|]. destruct Hb' as [->|Hb']; [exact Hh'|].
+    exfalso. exact (before_asym _ _ _ (inst_pl_nodup R p) Hb Hb').
+Qed.
